@@ -210,6 +210,11 @@ def r3_writers_complete(ctx, rule):
         ctx.ok(rule, OFO, 'the %d IP/EP/CP/LN writer loops emit every entry of the model' % n)
 
 
+def _cursor(ctx, rule):
+    from . import c10
+    return c10.r9_level_cursor_domain(ctx, rule)
+
+
 def _prune(ctx, rule):
     from . import c10
     return c10.r7_prune_discipline(ctx, rule)
@@ -222,7 +227,7 @@ def _passes(ctx, rule):
 
 def rules(tier):
     return [('C18.R1', r1_domain_guards), ('C18.R1b', r1b_recursive_count), ('C18.R2', r2_probability),
-            ('C18.R3', r3_writers_complete), ('C18.R4', c11.r3_cp_count), ('C18.R5', c11.r5_length_domain), ('C18.R6', _passes), ('C18.R7', c11.min_length_resolution), ('C18.R8', _prune)]
+            ('C18.R3', r3_writers_complete), ('C18.R4', c11.r3_cp_count), ('C18.R5', c11.r5_length_domain), ('C18.R6', _passes), ('C18.R7', c11.min_length_resolution), ('C18.R8', _prune), ('C18.R9', _cursor)]
 
 
 META = {
